@@ -75,6 +75,10 @@ def random_cut_case(rng, max_heavy, kinds=('$', '><'), max_parts=6, mol_kw=None,
     ringy = rng.random() < 0.35
     if ringy:
         kw = dict(p_ring=0.9, p_arom=rng.choice([0.2, 0.6]))
+        if rng.random() < 0.25:
+            # condensed aromatic systems (naphthalene ... tetracene skeletons), often cut through their rings
+            kw = dict(p_ring=0.3, p_arom=0.95, p_fused=0.85)
+            max_heavy = max(max_heavy, 14)
         kw.update(mol_kw or {})
         for _ in range(30):
             g = M.gen_molecule(rng, max_heavy=max(max_heavy, 8), **kw)
@@ -100,7 +104,7 @@ def random_cut_case(rng, max_heavy, kinds=('$', '><'), max_parts=6, mol_kw=None,
         # so its spelling has nodes that close several rings at once
         part = {n: i for i, n in enumerate(g.nodes)}
     nparts = max(part.values()) + 1
-    case = M.build_case(rng, g, part, kinds=kinds, render_opts=render_opts or {'explicit_single': rng.choice([0.0, 0.1]), 'desc_after_branch': rng.choice([0.0, 0.0, 0.5])})
+    case = M.build_case(rng, g, part, kinds=kinds, render_opts=render_opts or {'explicit_single': rng.choice([0.0, 0.1]), 'desc_after_branch': rng.choice([0.0, 0.5, 0.9])})
     if case is None:
         return None
     ast, pre = M.base_to_ast(rng, case['base'])
